@@ -239,5 +239,25 @@ __CPROVER_ensures(/*an-alias-works-on-the-array-an-ordinary-dimension-on-its-own
 __CPROVER_ensures(/*nothing-is-opened-for-an-ordinary-dimension*/ !self->is_alias ==> (gh_rd_opened == 0 && gh_rd_names_asked == 0))
 NIX_CANARY(RangeDimensionHDF5r_redirectGroup) __CPROVER_assigns(nix_exc, gh_rd_opened, gh_rd_names_asked)
 ;
+
+/* RangeDimensionHDF5::label(label) / unit(unit): written where redirectGroup() points - for an alias that is the ARRAY's own label / unit attribute
+   ("its label and unit are the array's, in both directions"); the value is stored as given. */
+extern int gh_rd_redirects, gh_rd_setattrs, gh_rd_attr_is_label, gh_rd_attr_is_unit, gh_rd_attr_grp, gh_rd_redirect_answer; extern size_t gh_rd_attr_value;
+static inline H5GroupR RangeDimensionHDF5r_redirectGroup_rec(const RangeDimensionHDF5r *self)
+{ gh_rd_redirects++; H5GroupR g; g.grp = gh_rd_redirect_answer; return g; }
+static inline void H5GroupR_setAttr(H5GroupR *g, const char *name, const nstring *value)
+{ gh_rd_setattrs++; gh_rd_attr_grp = g->grp; gh_rd_attr_is_label = name[0] == 'l' && name[1] == 'a' && name[2] == 'b'; gh_rd_attr_is_unit = name[0] == 'u' && name[1] == 'n' && name[2] == 'i'; gh_rd_attr_value = value->len; }
+#define RD_SET_PRE (__CPROVER_is_fresh(self, sizeof(*self)) && gh_rd_redirects == 0 && gh_rd_setattrs == 0 && nix_exc == EXC_NONE)
+#define RD_SET_ASSIGNS nix_exc, gh_rd_redirects, gh_rd_setattrs, gh_rd_attr_grp, gh_rd_attr_is_label, gh_rd_attr_is_unit, gh_rd_attr_value
+void RangeDimensionHDF5r_label_set(RangeDimensionHDF5r *self, const nstring *label)
+__CPROVER_requires(RD_SET_PRE && __CPROVER_is_fresh(label, sizeof(nstring)))
+__CPROVER_ensures(/*the-label-is-written-as-given-where-redirectGroup-points*/ gh_rd_redirects == 1 && gh_rd_setattrs == 1 && gh_rd_attr_grp == gh_rd_redirect_answer && gh_rd_attr_is_label && gh_rd_attr_value == label->len && nix_exc == EXC_NONE)
+NIX_CANARY(RangeDimensionHDF5r_label_set) __CPROVER_assigns(RD_SET_ASSIGNS)
+;
+void RangeDimensionHDF5r_unit_set(RangeDimensionHDF5r *self, const nstring *unit)
+__CPROVER_requires(RD_SET_PRE && __CPROVER_is_fresh(unit, sizeof(nstring)))
+__CPROVER_ensures(/*the-unit-is-written-as-given-where-redirectGroup-points*/ gh_rd_redirects == 1 && gh_rd_setattrs == 1 && gh_rd_attr_grp == gh_rd_redirect_answer && gh_rd_attr_is_unit && gh_rd_attr_value == unit->len && nix_exc == EXC_NONE)
+NIX_CANARY(RangeDimensionHDF5r_unit_set) __CPROVER_assigns(RD_SET_ASSIGNS)
+;
 #undef RV
 #endif
